@@ -607,6 +607,70 @@ func httpStructured() {
 	}
 }
 
+// structured /v2/event bodies: every field absent / empty / populated, and enum fields inside and outside the
+// declared range (proto3 enums are open: any int32 decodes)
+func httpStructuredEvents() {
+	var bodies [][]byte
+	for _, pr := range []int32{0, 1, 2, 127, -1} {
+		for _, ty := range []int32{0, 1, 2, 3, 4, 100, -1} {
+			for k := 0; k < 3; k++ {
+				e := &pb.EventV2{Priority: pb.EventV2_EventPriority(pr), Type: pb.EventV2_AlertType(ty)}
+				if k >= 1 {
+					e.Title, e.Text, e.DateHappened, e.Hostname, e.AggregationKey, e.SourceTypeName, e.Tags = "t", "x\ny", -5, "h", "k", "s", []string{"", "a:b"}
+				}
+				if k == 2 {
+					e.Title, e.Tags = "", []string{}
+				}
+				b, err := proto.Marshal(e)
+				if err != nil {
+					panic(err)
+				}
+				bodies = append(bodies, b)
+			}
+		}
+	}
+	res.Info["structured_event_bodies"] = len(bodies)
+	for i, body := range bodies {
+		if !vrt.Mine(int64(i + 1)) {
+			continue
+		}
+		for _, enc := range []string{"-", "deflate", "lz4"} {
+			res.Evaluations++
+			progress.Add(1)
+			data := body
+			var buf bytes.Buffer
+			switch enc {
+			case "deflate":
+				web.CompressWithZlib(body, &buf, 1)
+				data = buf.Bytes()
+			case "lz4":
+				web.CompressWithLz4(body, &buf, 1)
+				data = buf.Bytes()
+			}
+			desc := fmt.Sprintf("POST /v2/event enc=%q body=%x", enc, body)
+			current.Store(desc)
+			rp := map[string]any{"kind": "http-structured-event", "enc": enc, "bytes": data}
+			httpRec.Reset()
+			code, p := post("/v2/event", enc, data)
+			if p != "" {
+				res.Violate("http-panic "+keyOfPanic(p), desc+" (a well-formed event) panicked: "+p, rp)
+				continue
+			}
+			if code != 202 && code != 400 {
+				res.Violate("http-status", fmt.Sprintf("%s answered %d", desc, code), rp)
+			}
+			if code == 202 && len(httpRec.Events) != 1 {
+				res.Violate("http-event-count", fmt.Sprintf("%s answered 202 but %d events were dispatched", desc, len(httpRec.Events)), rp)
+			}
+			httpRec.Reset()
+			if c2, p2 := post("/v2/event", "-", goodEvent); p2 != "" || c2 != 202 || len(httpRec.Events) != 1 {
+				res.Violate("http-not-continuing", fmt.Sprintf("after %s a good request got %d %s", desc, c2, p2), rp)
+			}
+			nontrivial++
+		}
+	}
+}
+
 func watchdog() {
 	last := int64(-1)
 	stuck := 0
@@ -649,6 +713,9 @@ func main() {
 		case "http-structured":
 			setupHTTP()
 			httpStructured()
+		case "http-structured-event":
+			setupHTTP()
+			httpStructuredEvents()
 		}
 		for _, v := range res.Violations {
 			fmt.Println(v.Key, "\n ", v.Msg)
@@ -668,6 +735,7 @@ func main() {
 	case "http":
 		httpFamilies()
 		httpStructured()
+		httpStructuredEvents()
 	}
 	res.DistinctNontrivial = nontrivial
 	res.States = res.Evaluations
